@@ -24,7 +24,7 @@ SPECIFIC = {
  "C06": "refinement of the decision ladder (PageStep by AbsPage) in MC_core/MC_we/MC_wesub; clauses C06.created/.exc/.potential; rule installation compared up to the order of re-insertion; spec Match cross-checked against the real regexes",
  "C07": "invariant NetworkInv (fast and slow algorithms = aggregate, both directions, auto on/off); relational clauses C07.agg/.slow/.transpose/.tallies/.once",
  "C08": "invariant WeLinksInv (7 switch combinations); relational clauses C08.pagelinks/.once/.cited/.citing/.degree/.membership",
- "C09": "invariant PaginationInv (every page size 1..n+1, every resume point, crawled-only on/off); PagSession/MC_pag: a session interleaved with page insertions in every possible way (TokenValid, NoRepeat, NothingSkipped, NoInvention, ExactSize, Ordered); session clauses with page insertions between calls, exact prediction of every answer and token (bind.pag), independent token decoder",
+ "C09": "invariant PaginationInv (every page size 1..n+1, every resume point, crawled-only on/off); PagSession/MC_pag: a session interleaved with page insertions in every possible way (TokenValid, NoRepeat, NothingSkipped, NoInvention, ExactSize, Ordered); session clauses with page insertions between calls, exact prediction of every answer and token (bind.pag); Token/MC_token: encode/decode round trip for every path up to 9 moves, rows from the real token helpers (paths up to 90 moves) judged by TLC",
  "C10": "invariant PagLinksInv; session clauses C10.resume/.size/.once/.subset/.union/.token, exact prediction bind.pagl",
  "C11": "reopen is a stutter of the spec; lockstep twin that is never closed (C11.twin.*), C11.same/.answers on every reopen, C11.clear against a real fresh index, overwrite=True re-creation",
  "C12": "invariants IdsBounded/Monotone; C12.fresh judged against the largest id the trace has seen issued (survives deletions and reopen), C12.distinct, C12.shared; reopen-right-after-creation pattern",
